@@ -344,7 +344,8 @@ static struct arg *sym_operand(void)
 void verif_after_opts(struct arg **operands)
 {
   int n; bool b0, b1, b2, b3, b4, b5; int om; unsigned lvl, nw;
-  decompress = b0; force = b1; keep = b2; verbose = b3; small = b4; ultra = b5;
+  decompress = b0; force = b1; keep = b2; small = b4; ultra = b5;
+  verbose = 0;     /* -v only adds the floating-point ratio report, which is irrelevant here and very costly to bit-blast */
   __CPROVER_assume(om == OM_STDOUT || om == OM_DISCARD || om == OM_REGF); outmode = om;
   __CPROVER_assume(lvl >= 1 && lvl <= 9 && nw >= 1); bs100k = lvl; num_worker = nw;
   __CPROVER_assume(n >= 0 && n <= MAIN_MAX_OPERANDS);
@@ -395,12 +396,15 @@ void h_reporters(void)
 enum { E_D = 1, E_Z = 2, E_C = 4, E_T = 8, E_K = 16, E_F = 32, E_U = 64, E_LVL = 128, E_STOP = 256, E_OPERAND = 512, E_NOP = 1024, E_V = 2048 };
 struct tok { const char *s; int eff; int eff2; int lvl; };
 static const struct tok MENU[] = {
+#if !defined(OPTS_MENU) || OPTS_MENU == 0
   { "-d", E_D, 0, 0 }, { "-z", E_Z, 0, 0 }, { "-c", E_C, 0, 0 }, { "-t", E_T, 0, 0 }, { "-k", E_K, 0, 0 }, { "-f", E_F, 0, 0 },
   { "-u", E_U, 0, 0 }, { "-1", E_LVL, 0, 1 }, { "-5", E_LVL, 0, 5 }, { "-9", E_LVL, 0, 9 }, { "-q", E_NOP, 0, 0 }, { "-s", E_NOP, 0, 0 }, { "-v", E_V, 0, 0 },
   { "-dc", E_D, E_C, 0 }, { "-zk", E_Z, E_K, 0 }, { "-td", E_T, E_D, 0 }, { "-cz", E_C, E_Z, 0 },
+#else
   { "--decompress", E_D, 0, 0 }, { "--compress", E_Z, 0, 0 }, { "--stdout", E_C, 0, 0 }, { "--test", E_T, 0, 0 }, { "--keep", E_K, 0, 0 },
   { "--force", E_F, 0, 0 }, { "--sequential", E_U, 0, 0 }, { "--fast", E_LVL, 0, 1 }, { "--best", E_LVL, 0, 9 }, { "--small", E_NOP, 0, 0 },
   { "--quiet", E_NOP, 0, 0 }, { "--repetitive-fast", E_NOP, 0, 0 }, { "--repetitive-best", E_NOP, 0, 0 }, { "--exponential", E_NOP, 0, 0 }, { "--verbose", E_V, 0, 0 },
+#endif
   { "--", E_STOP, 0, 0 }, { "file", E_OPERAND, 0, 0 }, { "x.bz2", E_OPERAND, 0, 0 },
 };
 #define NMENU (sizeof MENU / sizeof MENU[0])
